@@ -150,6 +150,42 @@ func wrapEnv() *Env {
 	return e
 }
 
+// nilFnEnv: the entries FetchFn / FetchFnNil meet in a map (vm/runtime.go): a nil interface, a typed nil pointer and a
+// nil func held in an interface-typed map, a callable, a non-callable, and - behind Any - a pointer-typed map with a
+// nil pointer entry.  `m?.f()` answers nil exactly where FetchFn returns the zero reflect.Value (nil interface entry of
+// an interface-typed map, nil pointer entry of a pointer-typed map); everything else that is not callable is an error
+// for `m.f()` and `m?.f()` alike (coq/Sem/Prim.v fetch_fn_zero).
+func nilFnEnv() *Env {
+	e := baseEnv()
+	var np *Inner
+	var nf func(a int) int
+	e.MA = map[string]interface{}{"n": nil, "np": np, "nf": nf, "k": 1, "p": &Inner{X: 5, Y: "p"}, "Inc": e.Inc, "s": "v"}
+	e.Any = map[string]*Inner{"np": nil, "p": {X: 6, Y: "q"}}
+	return e
+}
+
+// nilFnSources: plain and nil-safe method calls on map members for every kind of entry (and on a nil receiver)
+func nilFnSources() []string {
+	var out []string
+	for _, recv := range []string{"MA", "Any", "MI", "P", "St.Next"} {
+		for _, name := range []string{"n", "np", "nf", "k", "p", "Inc", "missing", "a", "Get"} {
+			for _, dot := range []string{".", "?."} {
+				arg := ""
+				if name == "Inc" || name == "nf" {
+					arg = "2"
+				}
+				out = append(out, recv+dot+name+"("+arg+")")
+			}
+		}
+	}
+	out = append(out,
+		"MA?.n(Inc(1))", "MA.n(Inc(1))", "Any?.np(Inc(1), Twice(2))", "MA?.n() == nil", "MA?.np() == nil", "Any?.np() == nil",
+		"MA?.n()?.x", "[MA?.n(), MA?.Inc(1), Any?.np()]", "MA?.n() == nil ? Inc(1) : Inc(2)",
+		"(B ? MA : Any)?.np()", "(B2 ? MA : Any)?.np()", "{\"n\": nil}?.n()", "{\"n\": nil}.n()", "{\"n\": Any}?.n()",
+		"map(1..2, {MA?.n()})", "count(AS, {MA?.n(#) == nil})", "MA?.n().Get()", "MA?.n()?.Get()", "MA?.Inc(MA?.Inc(1))")
+	return out
+}
+
 func randomEnv(rng *rand.Rand) *Env {
 	pickS := func() string { return strPool[rng.Intn(len(strPool))] }
 	smallInt := func() int { return rng.Intn(9) - 2 }
